@@ -64,7 +64,7 @@ var props = []*propSpec{
 	{ID: "C03", Level: "exploration", Clauses: []string{"C03."},
 		Scens:  []scenSpec{{Name: "conc", Weight: 3}, {Name: "upload", Weight: 1}, {Name: "backend", Weight: 1}, {Name: "lru", Weight: 1}, {Name: "hardlimit", Weight: 1}, {Name: "hostile", Weight: 1}},
 		QuickS: 40, ThorS: 600, Rule: ruleCommon},
-	{ID: "C04", Level: "fault_enumeration", Clauses: []string{"C04."},
+	{ID: "C04", Level: "exploration", Clauses: []string{"C04."},
 		Scens:  []scenSpec{{Name: "conc", Weight: 3}, {Name: "upload", Weight: 2}, {Name: "backend", Weight: 1}, {Name: "lru", Weight: 1}, {Name: "hostile", Weight: 1}},
 		QuickS: 40, ThorS: 600, Rule: ruleCommon},
 	{ID: "C07", Level: "exploration", Clauses: []string{"C07.", "C03.", "C04.", "C14.fds", "C02.prefix"},
@@ -97,7 +97,7 @@ func init() {
 	props = append(props, &propSpec{ID: "C11", Level: "exploration", Clauses: []string{"C11."},
 		Scens:  []scenSpec{{Name: "ac", Weight: 1}},
 		QuickS: 40, ThorS: 600, Rule: ruleCommon})
-	props = append(props, &propSpec{ID: "C12", Level: "fault_enumeration", Clauses: []string{"C12.", "C14.panic", "C03.", "C04."},
+	props = append(props, &propSpec{ID: "C12", Level: "exploration", Clauses: []string{"C12.", "C14.panic", "C03.", "C04."},
 		Scens:  []scenSpec{{Name: "backend", Weight: 2}, {Name: "backend2", Weight: 1, Batch: 15}},
 		QuickS: 50, ThorS: 900, Rule: ruleCommon})
 	props = append(props, &propSpec{ID: "C09", Level: "exploration", Clauses: []string{"C09.", "C03.", "C04."},
